@@ -79,10 +79,23 @@ def _body_wo_doc(h):
 
 
 def _single_expr(h) -> Optional[ast.expr]:
+    """the helper as one expression: `return e`, or `if c: return a` (else/then) `return b` -> `a if c else b`"""
     body = _body_wo_doc(h)
-    if len(body) == 1 and isinstance(body[0], ast.Return) and body[0].value is not None:
-        return body[0].value
-    return None
+
+    def expr_of(stmts) -> Optional[ast.expr]:
+        if len(stmts) == 1 and isinstance(stmts[0], ast.Return):
+            return stmts[0].value if stmts[0].value is not None else ast.Constant(value=None)
+        if stmts and isinstance(stmts[0], ast.If):
+            a = expr_of(stmts[0].body)
+            rest = stmts[0].orelse if stmts[0].orelse else stmts[1:]
+            if stmts[0].orelse and len(stmts) > 1:
+                return None
+            b = expr_of(rest)
+            if a is not None and b is not None:
+                return ast.IfExp(test=stmts[0].test, body=a, orelse=b)
+        return None
+
+    return expr_of(body)
 
 
 def _bind_args(h, call: ast.Call, skip_first: bool) -> Optional[Dict[str, ast.expr]]:
